@@ -86,6 +86,16 @@ func VH_C20_writer() {
 		if fits {
 			payload = cat([]byte(s), make([]byte, n-len(s)))
 		}
+	case 8:
+		// WriteCString with arbitrary octets (a NUL inside the string is not invertible, but the
+		// count / length prefix must still agree with the bytes written)
+		s := vString("s", n)
+		w.WriteCString(s)
+		payload = cat([]byte(s), []byte{0})
+	case 9:
+		s := vString("s", n)
+		w.WriteFixedLenString(s, n+2)
+		payload = cat([]byte(s), []byte{0, 0})
 	}
 	got, gerr := w.Bytes()
 	gotL, gerrL := w.BytesWithLength()
@@ -139,6 +149,10 @@ func VH_C20_writer() {
 		vAssert("C20.inverse.cstring", r.ReadCString() == vString("s", n))
 	case 7:
 		vAssert("C20.inverse.fixed", r.ReadCStringN(n) == vStringUpTo("s", n+1))
+	case 8:
+		_ = r.ReadNBytes(n + 1)
+	case 9:
+		_ = r.ReadNBytes(n + 2)
 	}
 	vAssert("C20.read.no-error", r.Error() == nil)
 	vAssert("C20.read.leaves-suffix", vAnd(r.Remaining() == 3, vEqBytes(r.Bytes(), suffix)))
